@@ -443,6 +443,8 @@ class Unit:
         fq = path
         tagbase = dict(fn=fq, tmpl=False)
         g = self.gen
+        if 'noisolation' in flags:
+            g.emit('#[verifier::loop_isolation(false)]', dict(tagbase, kind='sig', label=None))
         g.emit(sig, dict(tagbase, kind='sig', label=None))
         obl = []
 
